@@ -128,18 +128,20 @@ def cmdServerUdp (mode zones qhex impl : String) : Result :=
 def cmdServerTcp (mode zones sent announce impl : String) : Result :=
   let zss? : Option (List ZoneSpec) := if zones = "-" then some [] else (zones.splitOn "^").mapM parseZoneSpec
   match zss?, bytesOfHex sent, announce.toNat? with
-  | some zss, some buf, some expectedLen =>
+  | some zss, some sentBytes, some expectedLen =>
     match configZones zss with
     | none => bad "zones"
     | some cfg =>
       let authOnly := mode == "auth"
-      let expected := serveTcp authOnly (authOnlyResolver cfg) expectedLen buf
+      let expected := serveTcp authOnly (authOnlyResolver cfg) expectedLen sentBytes
+      -- the message is the announced prefix of what was sent (octets beyond it are not part of it)
+      let buf := if sentBytes.length ≥ expectedLen then sentBytes.take expectedLen else sentBytes
       if impl == "conn-failed" then { model := "?", oracle := "fail:C09:tcp-connect-failed" }
       else
         match bytesOfHex impl with
         | none => { model := "?", oracle := "fail:C09:unparsable" }
         | some raw =>
-          let complete := buf.length ≥ expectedLen
+          let complete := sentBytes.length ≥ expectedLen
           let expectReply :=
             if complete then buf.length ≥ 2 && !(match decodeMessage buf with | .ok m => m.header.isResponse | .error _ => false)
             else buf.length ≥ 2
@@ -158,7 +160,8 @@ def cmdServerTcp (mode zones sent announce impl : String) : Result :=
                   ++ (if complete then checkReply authOnly buf body false
                       else (if byteAt body 3 % 16 != 1 then ["fail:C09:short-read-not-formerr"] else [])
                            ++ (if byteAt body 0 != byteAt buf 0 || byteAt body 1 != byteAt buf 1 then ["fail:C09:id-not-echoed"] else [])))
-          { model, oracle := joinVerdicts verdicts, tags := if complete then "tcp/complete" else "tcp/short" }
+          { model, oracle := joinVerdicts verdicts,
+            tags := if !complete then "tcp/short" else if sentBytes.length > expectedLen then "tcp/announced-prefix" else "tcp/complete" }
   | _, _, _ => bad "args"
 
 /-! ### reload histories -/
